@@ -43,6 +43,9 @@ type RunCtx struct {
 	// NonTrivial: the run contained at least one context switch, fault or
 	// whatever the family's rule says.
 	NonTrivial bool
+	// Classes: every violation class of the run, when a run can show several
+	// (race reports); Class is the first of them.
+	Classes []string
 	// HashSrc, when set, replaces the event log as the source of the replay
 	// hash (families whose violations are inherently probabilistic).
 	HashSrc string
@@ -121,12 +124,15 @@ func Bubble(t *testing.T, rc *RunCtx, body func(s *Sim)) {
 	synctest.Test(t, func(t *testing.T) {
 		s := newSim(rc)
 		s.start = time.Now()
-		simhook.YieldFn = s.Yield
-		simhook.HoldFn = s.Hold
-		simhook.FailFn = s.Coin
+		simhook.SetYield(s.Yield)
+		simhook.SetHold(s.Hold)
+		simhook.SetFail(s.Coin)
 		defer func() {
-			simhook.YieldFn, simhook.HoldFn, simhook.FailFn = nil, nil, nil
-			simhook.ListenFn, simhook.DialFn = nil, nil
+			simhook.SetYield(nil)
+			simhook.SetHold(nil)
+			simhook.SetFail(nil)
+			simhook.SetListen(nil)
+			simhook.SetDial(nil)
 			s.finish()
 		}()
 		defer func() {
@@ -172,6 +178,6 @@ func BubbleGoroutines() []string {
 
 // UseNet routes the Listen/Dial seams of the code under test to n.
 func UseNet(n Net) {
-	simhook.ListenFn = n.Listen
-	simhook.DialFn = n.Dial
+	simhook.SetListen(n.Listen)
+	simhook.SetDial(n.Dial)
 }
